@@ -35,6 +35,13 @@ CLAIMED['C03'] = ('bounded symbolic execution of clang LLVM IR of linear<probe> 
 CLAIMED['C09'] = ('bounded symbolic execution of clang LLVM IR of algebra::affine and the affine layer + z3 (exact-reading real arithmetic, polynomial normal form; bit-vectors for the factories)',
     'A*x == Ax+t, (A*B)*v == A*(B*v), product matrix, chains of up to 4 transforms, textbook factories, and the layer querying its backend once at Ax+t: for all real matrices and vectors, N=1..4, float and double.', '3.C09')
 
+CLAIMED['C19'] = ('bounded symbolic execution of clang LLVM IR of nd_map (std::function closures, heap, indirect calls executed) + z3',
+    'For every extent vector within the bound (extents 0..3, dimensionality 1..5 in the thorough tier) and an unconstrained symbolic probe tuple: the callback sees the tuple exactly once iff it lies inside the box, the invocation count is the product of the extents, closures are released.', '3.C19')
+CLAIMED['C17'] = ('bounded symbolic execution of clang LLVM IR of parameter packs, accessors and constructors + z3',
+    'Positional helper at depth 1..10 over layers sharing one configuration type, for all configuration values; depth-5 stack read back layer by layer and rebuilt from the reported configurations and storage, equal at a symbolic coordinate.', '3.C17')
+CLAIMED['C05'] = ('bounded symbolic execution of clang LLVM IR of the converting constructors (heap, nd_map closures) + z3',
+    'All ordered pairs of the four storage orders, every extent vector within the bound, all stored bit patterns, symbolic probe coordinate: same configuration and values, source unchanged, own storage, round trip, no leak; whole-stack conversions across interpolators. CUDA device arrays are not covered (no CUDA headers in the image).', '3.C05')
+
 NA = {
     'C13': 'decided by the C++ type checker (overload resolution, constraints, template instantiation): there is no IR to execute and no SMT encoding of C++ semantic analysis within reach; enumerating and compiling stacks would be a different technique (DESIGN.md section 5)',
 }
